@@ -1,7 +1,7 @@
 (* jx_driver.ml — the extracted JSON/XML reference syntax and adapter model on a line protocol.
 
    m.chk  <json|xml> <enc> <bom 0|1> <type#> <rootkey|-> <value> <hex bytes produced by the implementation>
-          -> AGREE <wf|truncated> PROP <ok|fail:why>  |  DIFF <why> PROP <ok|fail:why>
+          -> AGREE <wf|save-raises> PROP <ok|fail:why>  |  DIFF <why> PROP <ok|fail:why>
              (AGREE/DIFF: implementation document vs. the model's document; PROP: the property itself,
               i.e. the verified reference parser accepts the document and its DOM is the data model of the value)
    m.load <json|xml> <mem|stream> <enc> <type#> <rootkey|-> <pol> <hex bytes>
@@ -164,7 +164,12 @@ let json_chk enc bom idx value hex : string =
   | None -> "UNSUPPORTED"
   | Some model_dom ->
     let (ok, ev) = accept model_dom in
-    if String.length hex < 2 || String.sub hex 0 2 <> "OK" then
+    if not ok then
+      (* Finalize() raises OutOfRange when the writer refuses the DOM (NaN / Inf): an exception satisfies the property *)
+      (if hex = "EXC:OutOfRange" then "AGREE save-raises PROP ok"
+       else if String.length hex >= 4 && String.sub hex 0 4 = "EXC:" then "DIFF other-exception-" ^ hex ^ " PROP ok"
+       else "DIFF a-document-was-produced-where-the-writer-must-fail PROP fail:no-exception-for-a-value-JSON-cannot-carry")
+    else if String.length hex < 2 || String.sub hex 0 2 <> "OK" then
       "DIFF the-model-saves-a-document-but-the-implementation-answered-" ^ (List.hd (String.split_on_char ' ' hex)) ^ " PROP fail:no-document"
     else begin
       let bytes = parse_hexbytes (String.sub hex 3 (String.length hex - 3)) in
@@ -186,11 +191,10 @@ let json_chk enc bom idx value hex : string =
           else match lex (nat_of_int (List.length cps + 1)) cps with
             | LOk ts ->
               if not (events_match dbl_match_oracle ev ts) then "DIFF tokens"
-              else if ok then
+              else
                 (match parsed with
                  | JOk d -> if rj_match dbl_match_oracle model_dom d then "AGREE wf" else "DIFF dom"
                  | _ -> "DIFF not-well-formed")
-              else (match parsed with JOk _ -> "DIFF truncation-expected" | _ -> "AGREE truncated")
             | _ -> "DIFF lex" in
         agree ^ " PROP " ^ prop
     end
@@ -252,8 +256,8 @@ let load_text_rj (t : ty) (pol : string) (cps : n list) : outcome =
   | r -> r
 
 (* medium: mem | stream.  mem: Document::Parse on the bytes (UTF-8, a BOM is not skipped);
-   stream: AutoUTFInputStream (BOM / detected encoding = the declared one) read with UTF8 as the
-   source encoding: every code unit reaches the reader truncated to one byte (finding F27) *)
+   stream: AutoUTFInputStream (BOM, else the zero-byte pattern of the first four bytes) read with AutoUTF as the
+   source encoding: the text is transcoded (and thereby validated) to UTF-8 *)
 let json_load medium enc idx pol hex : string =
   let t = get_type idx in
   wide_idx := (let i = int_of_string idx in i >= 37 && i <= 41);
@@ -280,20 +284,37 @@ let json_load medium enc idx pol hex : string =
       end in
     ignore enc;
     let body = drop skip bytes in
-    if det = "utf8" then
-      (match utf8_to_cps body with
-       | Some cps -> fmt_outcome (load_text_rj t pol cps)
-       | None -> json_load_raw8 t pol body)
-    else begin
+    if det = "utf8" then begin
+      (* the reader stops at a NUL byte after the root value: what follows is never decoded *)
+      let rec before_nul acc = function
+        | [] -> None
+        | c :: r -> if int_of_n c = 0 then Some (List.rev acc) else before_nul (c :: acc) r in
+      let whole () =
+        match utf8_to_cps body with
+        | Some cps -> fmt_outcome (load_text_rj t pol cps)
+        | None -> "EXC:ParsingError" in                  (* the transcoding reader rejects ill-formed UTF-8 *)
+      match before_nul [] body with
+      | Some prefix ->
+        (match utf8_to_cps prefix with
+         | Some cps ->
+           (match load_json_text strtod_oracle i2d_oracle (opts_of pol) t cps with
+            | Err EParse -> whole ()
+            | r -> fmt_outcome r)
+         | None -> whole ())
+      | None -> whole ()
+    end else begin
       (* code units; a trailing partial unit is read as if padded (EOF gives 0): keep the whole units *)
       let k = if det = "utf16le" || det = "utf16be" then 2 else 4 in
       let whole = List.filteri (fun i _ -> i < (List.length body / k) * k) body in
       match units_of_bytes (k * 8) (det = "utf16be" || det = "utf32be") whole with
       | None -> "DECODE-ERR"
       | Some units ->
-        if List.for_all (fun u -> int_of_n u < 128) units
-        then fmt_outcome (load_text_rj t pol units)
-        else json_load_raw8 t pol (List.map (fun u -> n_of_int (int_of_n u land 255)) units)
+        let cps =
+          if k = 2 then (let r = transcode W16 W32 ThrowError [] units [] in if r.r_code = Success then Some r.r_out else None)
+          else (if List.for_all scalarb units then Some units else None) in
+        (match cps with
+         | Some c -> fmt_outcome (load_text_rj t pol c)
+         | None -> "EXC:ParsingError")
     end
   end
 
